@@ -97,3 +97,52 @@ Definition x_C07_recv_ok (v : val) : val :=
 
 (* the legal base streams are produced by C06's packetisers *)
 Definition x_C07_legal (v : val) : val := x_C06_gen v.
+
+(* ---- converters (C07Conv.v): case = (hevc sps pps vps aac asc ((kind payload) ...)) ---- *)
+From V Require C08Flv C09Adts C09TsFrame.
+From V Require Import C07Conv.
+
+Definition conv_cfg (v : val) : C08Flv.cfg :=
+  C08Flv.mkCfg (as_bool (nthv 0 v)) (as_bytes (nthv 1 v)) (as_bytes (nthv 2 v)) (as_bytes (nthv 3 v))
+    (repeat 0 21) 0 0 0 0 (as_bool (nthv 4 v)) (as_bytes (nthv 5 v)) 44100 16 2 0 [].
+Definition conv_frames (v : val) : list oframe :=
+  map (fun f => mkO (as_int (nthv 0 f)) 1000000 (as_bytes (nthv 1 f))) (as_list (nthv 6 v)).
+Definition zero_dts (fs : list oframe) : list Z := map (fun _ => 0) fs.
+
+(* FLV: the muxer goroutine is alive after the frames; when the parameter sets
+   are known from the start the number of media tags is the model's *)
+Definition flvconv_ok (c : C08Flv.cfg) (fs : list oframe) (alive : bool) (ntags : Z) : bool :=
+  match flv_run c false (flv_in (zero_dts fs) fs) with
+  | None => false                               (* excluded by C07_flvpack_total for non-empty video frames *)
+  | Some (_, tags) =>
+      alive && (if psets_known c then ntags =? Z.of_nat (length (C08Flv.mux_frames c (flv_in (zero_dts fs) fs)))
+                else true)
+  end.
+Definition x_C07_flvconv_ok (v : val) : val :=
+  let c := nthv 0 v in let obs := nthv 1 v in
+  vbool (negb (is_marker obs) &&
+         flvconv_ok (conv_cfg c) (conv_frames c) (as_bool (nthv 0 obs)) (as_int (nthv 1 obs))).
+
+(* TS: alive; video frames written = the model's (in-band SPS/PPS/AUD skipped);
+   audio frames either all refused (undecodable config) or at most one per frame *)
+Definition tsconv_ok (sps pps : bytes) (fs : list oframe) (alive : bool) (nvideo naudio : Z) : bool :=
+  let cs := ts_in (zero_dts fs) fs in
+  match ts_run sps pps None cs with
+  | None => false
+  | Some vf => alive && (nvideo =? Z.of_nat (length vf)) &&
+               (naudio <=? Z.of_nat (length (filter (fun c => negb (C09TsFrame.c_video c)) cs)))
+  end.
+Definition x_C07_tsconv_ok (v : val) : val :=
+  let c := nthv 0 v in let obs := nthv 1 v in
+  vbool (negb (is_marker obs) &&
+         tsconv_ok (as_bytes (nthv 1 c)) (as_bytes (nthv 2 c)) (conv_frames c)
+                   (as_bool (nthv 0 obs)) (as_int (nthv 1 obs)) (as_int (nthv 2 obs))).
+
+(* isolation replay: case = (pin (fault ...)); observed = ((panicked other_ok self_ok join_ok goroutines_ok) ...) per fault: all must be 0 1 1 1 1 *)
+Definition iso_step_ok (v : val) : bool :=
+  (as_int (nthv 0 v) =? 0) && (as_int (nthv 1 v) =? 1) && (as_int (nthv 2 v) =? 1) &&
+  (as_int (nthv 3 v) =? 1) && (as_int (nthv 4 v) =? 1).
+Definition x_C07_iso_ok (v : val) : val :=
+  let faults := as_list (nthv 1 (nthv 0 v)) in
+  let obs := nthv 1 v in
+  vbool (negb (is_marker obs) && Nat.eqb (length (as_list obs)) (length faults) && forallb iso_step_ok (as_list obs)).
